@@ -49,10 +49,20 @@ func (p *QueryTemplateParams[Opts]) UnmarshalJSON(b []byte) error {
 	if err != nil {
 		return err
 	}
-	p.PIT = x.PIT
-	p.OOT = x.OOT
-	p.Expand = x.Expand
-	p.PageSize = x.PageSize
+	// Overwrite decodes several layers onto the same value (template params, then request params):
+	// a layer only replaces what it specifies
+	if x.PIT != nil {
+		p.PIT = x.PIT
+	}
+	if x.OOT != nil {
+		p.OOT = x.OOT
+	}
+	if x.Expand != nil {
+		p.Expand = x.Expand
+	}
+	if x.PageSize != 0 {
+		p.PageSize = x.PageSize
+	}
 
 	if x.Sort != "" {
 		parts := strings.SplitN(x.Sort, ":", 2)
